@@ -2,9 +2,9 @@
    Only theorem statements; every proof is [exact] of a lemma in proofs/Containers*.v.
    Model: Containers.v (ordered_map_row/col, lines_per_every_row, render_all_items,
    draw_list_col(s), render), mirroring ListRowContainer / ListColumnContainer line by line. *)
-From Coq Require Import ZArith NArith List Permutation Sorted.
+From Coq Require Import ZArith NArith List Bool Permutation Sorted.
 From SL Require Import PyInt Widget TextWrap KeyPattern Containers
-     proofs.WidgetProofs proofs.ContainersProofs proofs.ContainersLayout proofs.ContainersGeom proofs.ContainersCells proofs.ContainersFinal.
+     proofs.WidgetProofs proofs.ContainersProofs proofs.ContainersLayout proofs.ContainersGeom proofs.ContainersCells proofs.ContainersBlank proofs.ContainersFinal.
 Import ListNotations.
 
 (* ---------------------------------------------------------------- 1. row container: row-major *)
@@ -300,6 +300,179 @@ Theorem C13_refused_label_texts : forall kind columns ts forced spacing kp' w i,
   render_tree (WList kind columns (map WText ts) forced spacing (Some kp')) w = RValueError.
 Proof. exact text_list_refused. Qed.
 
+(* ---------------------------------------------------------------- 8. blank elsewhere; the buffer is determined *)
+(* The drawing of a list container is a sequence of stamps ((row, col), source buffer): for every
+   grid position (column k, row r, item i) the label at (rowstart r, k*(cw+s)) and the item right of
+   it at column k*(cw+s) + len(label text), or the item alone without numbering. *)
+Theorem C13_stamps_of_def : forall rendered i rp cp,
+  stamps_of rendered (i, (rp, cp)) =
+  match nth i rendered ([], None) with
+  | (ib, Some (lb, lw)) => [((rp, cp), lb); ((rp, cp + lw), ib)]
+  | (ib, None) => [((rp, cp), ib)]
+  end.
+Proof. intros. reflexivity. Qed.
+
+Theorem C13_list_stamps : forall rendered omap lpr pitch s,
+  In s (list_stamps rendered (all_placements omap lpr 0 pitch)) <->
+  exists k r i, k < length omap /\ nth_error (nth k omap []) r = Some i /\
+                In s (stamps_of rendered (i, (rowstart lpr r, k * pitch))).
+Proof. exact in_list_stamps_grid. Qed.
+
+(* the cells a stamp covers (row y of the source covers len(row y) columns: the same cells as in
+   [shows] of C13_cells) and the cells to its left on its rows *)
+Theorem C13_in_stamp_def : forall s i j,
+  in_stamp s i j = true <->
+  st_row s <= i < st_row s + length (st_src s) /\
+  st_col s <= j < st_col s + row_len (st_src s) (i - st_row s).
+Proof. exact in_stamp_iff. Qed.
+
+Theorem C13_pads_def : forall s i j,
+  pads s i j = true <-> st_row s <= i < st_row s + length (st_src s) /\ j < st_col s.
+Proof. exact pads_iff. Qed.
+
+Theorem C13_item_covers_def : forall rendered p i j,
+  item_covers rendered p i j = existsb (fun s => in_stamp s i j) (stamps_of rendered p).
+Proof. intros. reflexivity. Qed.
+
+(* what is covered lies in the rectangle of C13_no_overlap / C13_item_inside_rect *)
+Theorem C13_covers_inside_rect : forall cw rendered p i j,
+  item_fits cw (nth (fst p) rendered ([], None)) ->
+  item_covers rendered p i j = true ->
+  fst (snd p) <= i < fst (snd p) + item_height (nth (fst p) rendered ([], None)) /\
+  snd (snd p) <= j < snd (snd p) + cw.
+Proof. exact covers_inside_rect. Qed.
+
+(* C13_blank_elsewhere: every cell of the rendered list that lies in no label and no item is a
+   blank: the padding between columns, the short last row, the lines of a row below a short item,
+   the ragged right edge of an item.  _partial: hypotheses on the sub-widgets as before. *)
+Theorem C13_blank_elsewhere_partial : forall kind columns items forced spacing kp w b,
+  (0 <= spacing)%Z ->
+  (forall it w' b', In it items -> (0 < w')%Z -> render_tree it w' = ROk b' -> (Z.of_nat (buf_width b') <= w')%Z) ->
+  (forall kp' i lb, kp = Some kp' -> label_buffer kp' i = ROk lb -> buf_width lb <= length (get_widget_label kp' i)) ->
+  render_tree (WList kind columns items forced spacing kp) w = ROk b ->
+  let cw := list_columns_width columns forced spacing w in
+  let omap := ordered_map kind (length items) (Z.to_nat columns) in
+  exists rendered,
+    render_all_items render_tree items 0 cw kp = ROk rendered /\
+    let lpr := lines_per_every_row omap (map item_height rendered) in
+    forall y x ch, cell b y x = Some ch ->
+      (forall k r i, k < length omap -> nth_error (nth k omap []) r = Some i ->
+         item_covers rendered (i, (rowstart lpr r, k * Z.to_nat (cw + spacing))) y x = false) ->
+      ch = SP.
+Proof. exact render_list_blank_elsewhere. Qed.
+
+Theorem C13_blank_elsewhere : forall kind columns items forced spacing kp w b,
+  (0 <= spacing)%Z -> Forall plain_tree items ->
+  render_tree (WList kind columns items forced spacing kp) w = ROk b ->
+  let cw := list_columns_width columns forced spacing w in
+  let omap := ordered_map kind (length items) (Z.to_nat columns) in
+  exists rendered,
+    render_all_items render_tree items 0 cw kp = ROk rendered /\
+    let lpr := lines_per_every_row omap (map item_height rendered) in
+    forall y x ch, cell b y x = Some ch ->
+      (forall k r i, k < length omap -> nth_error (nth k omap []) r = Some i ->
+         item_covers rendered (i, (rowstart lpr r, k * Z.to_nat (cw + spacing))) y x = false) ->
+      ch = SP.
+Proof. exact plain_list_blank_elsewhere. Qed.
+
+(* the same with the rectangles  rows [rowstart r, rowstart r + item_height) x columns
+   [k*(cw+s), k*(cw+s) + cw)  of C13_no_overlap: a cell outside every rectangle is a blank *)
+Theorem C13_blank_outside_rects_partial : forall kind columns items forced spacing kp w b,
+  (0 <= spacing)%Z ->
+  (forall it w' b', In it items -> (0 < w')%Z -> render_tree it w' = ROk b' -> (Z.of_nat (buf_width b') <= w')%Z) ->
+  (forall kp' i lb, kp = Some kp' -> label_buffer kp' i = ROk lb -> buf_width lb <= length (get_widget_label kp' i)) ->
+  render_tree (WList kind columns items forced spacing kp) w = ROk b ->
+  let cw := list_columns_width columns forced spacing w in
+  let omap := ordered_map kind (length items) (Z.to_nat columns) in
+  exists rendered,
+    render_all_items render_tree items 0 cw kp = ROk rendered /\
+    let lpr := lines_per_every_row omap (map item_height rendered) in
+    forall y x ch, cell b y x = Some ch ->
+      (forall k r i, k < length omap -> nth_error (nth k omap []) r = Some i ->
+         ~ (rowstart lpr r <= y < rowstart lpr r + item_height (nth i rendered ([], None)) /\
+            k * Z.to_nat (cw + spacing) <= x < k * Z.to_nat (cw + spacing) + Z.to_nat cw)) ->
+      ch = SP.
+Proof. exact render_list_blank_outside_rects. Qed.
+
+Theorem C13_blank_outside_rects : forall kind columns items forced spacing kp w b,
+  (0 <= spacing)%Z -> Forall plain_tree items ->
+  render_tree (WList kind columns items forced spacing kp) w = ROk b ->
+  let cw := list_columns_width columns forced spacing w in
+  let omap := ordered_map kind (length items) (Z.to_nat columns) in
+  exists rendered,
+    render_all_items render_tree items 0 cw kp = ROk rendered /\
+    let lpr := lines_per_every_row omap (map item_height rendered) in
+    forall y x ch, cell b y x = Some ch ->
+      (forall k r i, k < length omap -> nth_error (nth k omap []) r = Some i ->
+         ~ (rowstart lpr r <= y < rowstart lpr r + item_height (nth i rendered ([], None)) /\
+            k * Z.to_nat (cw + spacing) <= x < k * Z.to_nat (cw + spacing) + Z.to_nat cw)) ->
+      ch = SP.
+Proof. exact plain_list_blank_outside_rects. Qed.
+
+(* C13_render_determined: the rendered buffer is, cell for cell, the function [spec_cell] of its
+   stamps — the content of the stamp that covers the cell (any stamp that covers it: third
+   conjunct), a blank where some stamp on that row starts further right, no cell otherwise (fourth
+   conjunct) — and its height is the lowest bottom edge of a stamp.  With C13_buffer_ext (height and
+   cells determine a buffer) the layout theorems characterise the output completely. *)
+Theorem C13_spec_cell_def : forall stamps i j,
+  spec_cell stamps i j =
+  match content stamps i j with
+  | Some ch => Some ch
+  | None => if existsb (fun s => pads s i j) stamps then Some SP else None
+  end.
+Proof. intros. reflexivity. Qed.
+
+Theorem C13_content_def : forall s rest i j,
+  content [] i j = None /\
+  content (s :: rest) i j =
+  match content rest i j with
+  | Some ch => Some ch
+  | None => if in_stamp s i j then cell (st_src s) (i - st_row s) (j - st_col s) else None
+  end.
+Proof. intros. split; reflexivity. Qed.
+
+Theorem C13_buffer_ext : forall b1 b2 : buffer,
+  length b1 = length b2 -> (forall i j, cell b1 i j = cell b2 i j) -> b1 = b2.
+Proof. exact buffer_ext. Qed.
+
+Theorem C13_render_determined_partial : forall kind columns items forced spacing kp w b,
+  (0 <= spacing)%Z ->
+  (forall it w' b', In it items -> (0 < w')%Z -> render_tree it w' = ROk b' -> (Z.of_nat (buf_width b') <= w')%Z) ->
+  (forall kp' i lb, kp = Some kp' -> label_buffer kp' i = ROk lb -> buf_width lb <= length (get_widget_label kp' i)) ->
+  render_tree (WList kind columns items forced spacing kp) w = ROk b ->
+  let cw := list_columns_width columns forced spacing w in
+  let omap := ordered_map kind (length items) (Z.to_nat columns) in
+  exists rendered,
+    render_all_items render_tree items 0 cw kp = ROk rendered /\
+    Forall (item_fits (Z.to_nat cw)) rendered /\
+    let ps := all_placements omap (lines_per_every_row omap (map item_height rendered)) 0 (Z.to_nat (cw + spacing)) in
+    let stamps := list_stamps rendered ps in
+    length b = spec_height stamps /\
+    (forall i j, cell b i j = spec_cell stamps i j) /\
+    (forall i j s, In s stamps -> in_stamp s i j = true ->
+                   cell b i j = cell (st_src s) (i - st_row s) (j - st_col s)) /\
+    (forall i j, (forall s, In s stamps -> in_stamp s i j = false) ->
+                 cell b i j = if existsb (fun s => pads s i j) stamps then Some SP else None).
+Proof. exact render_list_determined. Qed.
+
+Theorem C13_render_determined : forall kind columns items forced spacing kp w b,
+  (0 <= spacing)%Z -> Forall plain_tree items ->
+  render_tree (WList kind columns items forced spacing kp) w = ROk b ->
+  let cw := list_columns_width columns forced spacing w in
+  let omap := ordered_map kind (length items) (Z.to_nat columns) in
+  exists rendered,
+    render_all_items render_tree items 0 cw kp = ROk rendered /\
+    Forall (item_fits (Z.to_nat cw)) rendered /\
+    let ps := all_placements omap (lines_per_every_row omap (map item_height rendered)) 0 (Z.to_nat (cw + spacing)) in
+    let stamps := list_stamps rendered ps in
+    length b = spec_height stamps /\
+    (forall i j, cell b i j = spec_cell stamps i j) /\
+    (forall i j s, In s stamps -> in_stamp s i j = true ->
+                   cell b i j = cell (st_src s) (i - st_row s) (j - st_col s)) /\
+    (forall i j, (forall s, In s stamps -> in_stamp s i j = false) ->
+                 cell b i j = if existsb (fun s => pads s i j) stamps then Some SP else None).
+Proof. exact plain_list_determined. Qed.
+
 (* ---------------------------------------------------------------- non-vacuity *)
 Local Open Scope N_scope.
 Example C13_example :
@@ -327,6 +500,33 @@ Example C13_example_plain :
 Proof.
   unfold plain_tree. repeat (constructor; try exact I; try (intros; exact I); try (vm_compute; discriminate)).
 Qed.
+
+(* blank elsewhere / determined on a 2-column x 3-row container with a short last row and items of
+   1, 0, 1, 3 and 1 lines ("aaa bb" wraps to 2):
+     "1) aaa  2)" / "   bb" / "3) c    4) dd" / "           ee" / "           ff" / "5) g"
+   10 stamps (5 labels, 5 items), height 6; on the 8 x 16 grid of positions the buffer equals
+   spec_cell everywhere; of its 58 cells 23 are covered by a label or an item and the other 35
+   (padding between the columns, left of "bb"/"ee"/"ff", between label and item) are blanks *)
+Example C13_example_blank :
+  let t := fun s => WText (simple_text s) in
+  let items := [t [97;97;97;32;98;98]; t []; t [99]; t [100;100;32;101;101;32;102;102]; t [103]] in
+  let omap := ordered_map KRow 5 2 in
+  let opt_eqb := fun a b : option char =>
+    match a, b with Some x, Some y => (x =? y)%N | None, None => true | _, _ => false end in
+  match render_all_items render_tree items 0 6%Z (Some default_pattern),
+        render_tree (WList KRow 2%Z items None 2%Z (Some default_pattern)) 14%Z with
+  | ROk rendered, ROk b =>
+    let stamps := list_stamps rendered (all_placements omap (lines_per_every_row omap (map item_height rendered)) 0 8) in
+    let grid := list_prod (seq 0 8) (seq 0 16) in
+    let covered := fun yx : nat * nat => existsb (fun s => in_stamp s (fst yx) (snd yx)) stamps in
+    length stamps = 10%nat /\ length b = 6%nat /\ spec_height stamps = 6%nat /\
+    forallb (fun yx => opt_eqb (cell b (fst yx) (snd yx)) (spec_cell stamps (fst yx) (snd yx))) grid = true /\
+    length (filter (fun yx => match cell b (fst yx) (snd yx) with Some _ => true | None => false end) grid) = 58%nat /\
+    length (filter covered grid) = 23%nat /\
+    length (filter (fun yx => negb (covered yx) && opt_eqb (cell b (fst yx) (snd yx)) (Some SP)) grid) = 35%nat
+  | _, _ => False
+  end.
+Proof. vm_compute. repeat split. Qed.
 
 Print Assumptions C13_order_row_columns.
 Print Assumptions C13_order_row.
@@ -369,3 +569,18 @@ Print Assumptions C13_width_bound.
 Print Assumptions C13_layout.
 Print Assumptions C13_cells.
 Print Assumptions C13_refused_label_texts.
+Print Assumptions C13_stamps_of_def.
+Print Assumptions C13_list_stamps.
+Print Assumptions C13_in_stamp_def.
+Print Assumptions C13_pads_def.
+Print Assumptions C13_item_covers_def.
+Print Assumptions C13_covers_inside_rect.
+Print Assumptions C13_blank_elsewhere_partial.
+Print Assumptions C13_blank_elsewhere.
+Print Assumptions C13_blank_outside_rects_partial.
+Print Assumptions C13_blank_outside_rects.
+Print Assumptions C13_spec_cell_def.
+Print Assumptions C13_content_def.
+Print Assumptions C13_buffer_ext.
+Print Assumptions C13_render_determined_partial.
+Print Assumptions C13_render_determined.
